@@ -510,6 +510,24 @@ class C05(vlib.Spec):
     def extra(self, R, tier, rng):
         for k, v in self.hist.items():
             R.count(k, v)
+        # Supporting exploration (NOT the proof, NOT counted as evaluations): the real introducer/flusher/merger loops
+        # run while writers add batches and readers pin + scan snapshots. Always-true predicate: no panic, every pinned
+        # file part has its directory, every batch shows all of its rows or none, every acknowledged batch is visible.
+        go = vlib.go_build_driver(self.go_driver)
+        n = 8 if tier == "quick" else 60
+        lines = ["st %d %d %d" % (rng.choice([1, 2, 3, 4]), rng.choice([1, 2, 4]), rng.choice([4, 8, 16, 30])) for _ in range(n)]
+        outs = _seq_run_lines(go, lines, env=vlib.goenv(), timeout=1200)
+        for ln, o in zip(lines, outs):
+            ok = o.startswith("ok ")
+            R.count("stress(supporting):" + ("ok" if ok else "fail"))
+            if ok:
+                m = re.search(r"reads=(\d+) fileviews=(\d+)", o)
+                if m:
+                    R.count("stress(supporting):snapshot-scans", int(m.group(1)))
+                    R.count("stress(supporting):pinned-file-parts-checked", int(m.group(2)))
+            else:
+                R.violation("oracle", "concurrent run with the real loops (supporting exploration, nondeterministic): " + o[:400],
+                            {"case": ln, "impl_output": o, "driver": self.go_driver, "note": "schedule-dependent; re-run several times"})
 
 
 SPEC = C05()
